@@ -40,4 +40,16 @@ var c06MoreSelfTests = []SelfTest{
 	{Name: "forwarding loop duplicates every route", ExpectRule: "C06.R1", ExpectKey: "floodWithdrawal", Edits: []Edit{
 		{File: "internal/flood/flood.go", Old: "\twithdraw := &protocol.RouteWithdraw{\n\t\tOriginAgent: originAgent,\n\t\tSequence:    sequence,\n\t\tRoutes:      routes,\n", New: "\tfwd := make([]protocol.Route, 0, len(routes))\n\tfor _, rt := range routes {\n\t\tfwd = append(fwd, rt)\n\t\tfwd = append(fwd, rt)\n\t}\n\twithdraw := &protocol.RouteWithdraw{\n\t\tOriginAgent: originAgent,\n\t\tSequence:    sequence,\n\t\tRoutes:      fwd,\n"},
 	}},
+	{Name: "address family taken from IP.To4 while the prefix length comes from the mask", ExpectRule: "C06.R6", ExpectKey: "ipNetToProtocolRoute", Edits: []Edit{
+		{File: "internal/flood/flood.go", Old: "\tones, bits := network.Mask.Size()\n\tfamily := protocol.AddrFamilyIPv4\n\tif bits == 128 {\n\t\tfamily = protocol.AddrFamilyIPv6\n\t}\n", New: "\tones, _ := network.Mask.Size()\n\tfamily := protocol.AddrFamilyIPv4\n\tif network.IP.To4() == nil {\n\t\tfamily = protocol.AddrFamilyIPv6\n\t}\n"},
+	}},
+	{Name: "address family taken from len(IP) while the prefix length comes from the mask", ExpectRule: "C06.R6", ExpectKey: "ipNetToProtocolRoute", Edits: []Edit{
+		{File: "internal/flood/flood.go", Old: "\tones, bits := network.Mask.Size()\n\tfamily := protocol.AddrFamilyIPv4\n\tif bits == 128 {\n\t\tfamily = protocol.AddrFamilyIPv6\n\t}\n", New: "\tones, _ := network.Mask.Size()\n\tfamily := protocol.AddrFamilyIPv4\n\tif len(network.IP) == net.IPv6len {\n\t\tfamily = protocol.AddrFamilyIPv6\n\t}\n"},
+	}},
+	{Name: "rewrite: address family from the byte length of the mask", Edits: []Edit{
+		{File: "internal/flood/flood.go", Old: "\tones, bits := network.Mask.Size()\n\tfamily := protocol.AddrFamilyIPv4\n\tif bits == 128 {\n\t\tfamily = protocol.AddrFamilyIPv6\n\t}\n", New: "\tones, _ := network.Mask.Size()\n\tfamily := protocol.AddrFamilyIPv4\n\tif len(network.Mask) == net.IPv6len {\n\t\tfamily = protocol.AddrFamilyIPv6\n\t}\n"},
+	}},
+	{Name: "rewrite: address family by a switch on the mask width", Edits: []Edit{
+		{File: "internal/flood/flood.go", Old: "\tones, bits := network.Mask.Size()\n\tfamily := protocol.AddrFamilyIPv4\n\tif bits == 128 {\n\t\tfamily = protocol.AddrFamilyIPv6\n\t}\n", New: "\tones, bits := network.Mask.Size()\n\tvar family uint8\n\tswitch bits {\n\tcase 128:\n\t\tfamily = protocol.AddrFamilyIPv6\n\tdefault:\n\t\tfamily = protocol.AddrFamilyIPv4\n\t}\n"},
+	}},
 }
